@@ -53,6 +53,8 @@ func checkC01(w *World, tier string) *Report {
 		"host preconditions: BlockContext.BlockNumber non-nil; djpm.AspectInstance() initialised")
 	// the transfer replacement rests on the wrapper calling the host transfer exactly once, unconditionally, with the same arguments
 	addR131(w, r, "R13.1")
+	addZeroStatePremiseRule(w, r, "R1.6", pkVM, pkRuntime, pkCore, pkTracers, pkNative, pkLogger)
+	r.Explanation += " R1.6 (premise of the zero-state argument) every field the fork added to an inherited struct is stored only in fork-only functions that inherited code does not reach through static calls (Aspect event handlers, host-facing setters) or in constructors: ordinary execution never writes it, so code guarded by it is dead without Aspect state."
 	return r
 }
 
@@ -137,5 +139,7 @@ func checkC18(w *World, tier string) *Report {
 		return meter[f[strings.LastIndex(f, "/")+1:]]
 	})
 	r.need("R18.1g", 40)
+	addZeroStatePremiseRule(w, r, "R1.6", pkVM, pkTracers, pkNative, pkLogger)
+	r.Explanation += " R1.6 (premise of the zero-state argument) every field the fork added to an inherited struct is stored only in fork-only functions that inherited code does not reach through static calls (Aspect event handlers, host-facing setters) or in constructors: ordinary execution never writes it, so code guarded by it is dead without Aspect state."
 	return r
 }
